@@ -147,6 +147,7 @@ def run(repo, rep, tier):
     recursion_forwards_parameters(repo, rep)
     owned_only_after_create(repo, rep)
     values_compared_exactly(repo, rep)
+    manager_id_stored_as_given(repo, rep)
 
     # ---- R1 ---------------------------------------------------------------
     sites = pattern_sites(repo, SM)
@@ -939,3 +940,50 @@ def values_compared_exactly(repo, rep):
     probe = ast.parse("a.value.lower() == b.lower()").body[0].value
     if not folded_value_operands(probe):
         raise AnalysisError('C18.R10 recogniser broken')
+
+
+def manager_id_stored_as_given(repo, rep):
+    """C18.R11: the subscription manager ID that goes into the Name of every
+    owned filter / destination (and into the patterns that recognise them)
+    is the constructor argument as given.  Two managers are told apart by
+    their IDs only; a transformation that maps different IDs to one stored
+    value (strip(), lower(), ...) makes a manager with ID 'x ' recognise -
+    and remove - the instances owned by the manager with ID 'x'."""
+    r11 = rep.rule('C18.R11', 'the subscription manager ID is stored '
+                   'unchanged (distinct IDs stay distinct)')
+    mgr = repo.cls(SM, 'WBEMSubscriptionManager')
+    init = mgr.methods.get('__init__')
+    if init is None:
+        raise AnalysisError('WBEMSubscriptionManager.__init__ vanished')
+    r11.functions.add(init.fq)
+    params = [p_ for p_ in init.params if p_ != 'self']
+    stores = [n for n in walk_no_nested(init.node)
+              if isinstance(n, ast.Assign) and len(n.targets) == 1 and
+              norm(n.targets[0]) == 'self._subscription_manager_id']
+    if not stores:
+        raise AnalysisError('__init__ does not store '
+                            '_subscription_manager_id')
+
+    def origin(e, depth=0):
+        """the parameter an expression is, through plain re-bindings"""
+        if isinstance(e, ast.Name):
+            if e.id in params:
+                return e.id
+            defs = [n.value for n in walk_no_nested(init.node)
+                    if isinstance(n, ast.Assign) and len(n.targets) == 1 and
+                    norm(n.targets[0]) == e.id]
+            if len(defs) == 1 and depth < 3:
+                return origin(defs[0], depth + 1)
+        return None
+    for st in stores:
+        r11.sites += 1
+        ok = origin(st.value) is not None
+        r11.ob(ok, norm(st, 60))
+        if not ok:
+            rep.finding(r11, init.qualname, norm(st, 70), 'id-transformed',
+                        SM, st.lineno,
+                        'the stored ID is %s, not the argument itself: IDs '
+                        'that differ only in what the transformation removes '
+                        'are stored as the same ID, so one manager '
+                        'recognises and removes the owned instances of the '
+                        'other' % norm(st.value, 50))
